@@ -31,6 +31,8 @@ def main():
                     base.setdefault("fixed", []).append(line)
                     fixed_seen.add(line)
         for line in d.get("fixed", []):
+            if isinstance(line, dict):
+                line = f"fixed: property={line.get('property', '?')} {str(line.get('commit', ''))[:7]} {line.get('summary', line.get('what', line.get('id', '')))}"
             words = line.split()
             c = next((w for w in words if len(w) == 7 and all(ch in "0123456789abcdef" for ch in w)), None)
             if c and c in commits:
